@@ -45,7 +45,7 @@ def enumerated(tier, seed):
 
 
 def searches(tier):
-    return [("splits", _case, 2400 if tier == "quick" else 200000)]
+    return [("splits", _case, 2400 if tier == "quick" else 100000)]
 
 
 def split(lines, cuts, nested, names):
